@@ -25,7 +25,7 @@ claim("C13", "exploration", "balance",
 
 claim("C01", "fault_enumeration", "prod",
       "runtime monitor of the real AsyncProducer/SyncProducer against a simulated cluster: enumerated fault words x retry budget x idempotence plus seeded random scenarios with hook-based schedule steering; conservation oracle over submit/outcome events at the API boundary, quiescence-based completion verdict, race detector",
-      "Every fault word of length <= 2 (quick) / <= 3 (thorough) over the 9-letter produce-fault alphabet is run for Retry.Max 0-2 and idempotent on/off on a small scenario; seeded random scenarios add brokers, partitions, flush settings, versions, acks, leader moves, leaderless windows, metadata failures, SyncProducer callers and steering plans; directed multi-step scenarios (retry cycle / leaderless window / second retry cycle; the same partition refused several times in a row with input at several paces and responses held until k more messages are buffered; one response refusing batches of 2-3 partitions of one broker; a refusal followed by a refusal that leaves the partition leaderless; messages whose request cannot be encoded); cases that re-submit message objects handed back on Successes()/Errors(). For each run: every submitted message has exactly one terminal event, no event for anything else, Close/AsyncClose completes (stuck only when nothing moves any more), SyncProducer returns equal the producer's outcome for that pointer.",
+      "Every fault word of length <= 2 (quick) / <= 3 (thorough) over the 9-letter produce-fault alphabet is run for Retry.Max 0-2 and idempotent on/off on a small scenario; seeded random scenarios add brokers, partitions, flush settings, versions, acks, leader moves, leaderless windows, metadata failures, SyncProducer callers and steering plans; directed multi-step scenarios (retry cycle / leaderless window / second retry cycle; a metadata refresh that fails right after a refusal; the same partition refused several times in a row with input at several paces and responses held until k more messages are buffered; one response refusing batches of 2-3 partitions of one broker; a refusal followed by a refusal that leaves the partition leaderless; messages whose request cannot be encoded); cases that re-submit message objects handed back on Successes()/Errors(). For each run: every submitted message has exactly one terminal event, no event for anything else, Close/AsyncClose completes (stuck only when nothing moves any more), SyncProducer returns equal the producer's outcome for that pointer.",
       "Held on the executions of the run. Successes pending when Close() is called are drained by Close itself (documented) and are then checked through the ap.outcome hook instead of the channel.",
       "DESIGN.md §7 C01")
 claim("C02", "fault_enumeration", "prod",
@@ -35,7 +35,7 @@ claim("C02", "fault_enumeration", "prod",
       "DESIGN.md §7 C02")
 claim("C04", "exploration", "prod",
       "runtime monitor: every produce request is parsed by an independent reference reader (message v0/v1, record batch v2, all codecs, CRCs, varints, relative offsets); success events are checked against the simulated log content and a reference partitioner",
-      "Payload (nil vs empty keys and values, headers, sub-millisecond timestamps in no order) x version x codec x batching x acks x light fault scripts; each success must name the partition the partitioner chose and an offset holding exactly that message; nothing else may be in the log; wire format rules checked per request.",
+      "Payload (nil vs empty keys and values, neither key nor value, headers - also under versions that cannot carry them, which the producer has to refuse -, sub-millisecond timestamps in no order) x version x codec x batching x acks x light fault scripts; each success must name the partition the partitioner chose and an offset holding exactly that message; nothing else may be in the log; wire format rules checked per request.",
       "Held on the executions of the run. Offset under RequiredAcks=NoResponse is not judged (documented as undefined).",
       "DESIGN.md §7 C04")
 claim("C05", "fault_enumeration", "prod",
@@ -45,14 +45,14 @@ claim("C05", "fault_enumeration", "prod",
       "DESIGN.md §7 C05, §8")
 claim("C16", "exploration", "prod",
       "runtime monitor: sizes and counts of every produce request measured at the simulated cluster (wire size, per-partition key+value bytes, records per request), rejection outcomes, and a quiescence-judged flush clause after the input stops",
-      "Message sizes straddling each limit x Flush.{Messages,Bytes,Frequency,MaxMessages} x MaxMessageBytes x lowered MaxRequestSize x version x partitions per broker, answers delayed by steering so batches accumulate; record headers in 40% of the 0.11+ scenarios; a byte trigger that the last message passes on its own; delayed-retry scenarios (only Flush.Frequency, answers slower than the frequency, a retriable refusal, input for several partitions meanwhile, then the input stops); cases that refill message objects handed back earlier with payloads of another size (small / just fitting / 0.6 x limit / oversize, 2-3 rounds) and send them again.",
+      "Message sizes straddling each limit x Flush.{Messages,Bytes,Frequency,MaxMessages} x MaxMessageBytes x lowered MaxRequestSize x version x partitions per broker, answers delayed by steering so batches accumulate; record headers in 40% of the 0.11+ scenarios; a byte trigger that the last message passes on its own; one message larger than the lowered MaxRequestSize while Producer.MaxMessageBytes allows it; delayed-retry scenarios (only Flush.Frequency, answers slower than the frequency, a retriable refusal, input for several partitions meanwhile, then the input stops); cases that refill message objects handed back earlier with payloads of another size (small / just fitting / 0.6 x limit / oversize, 2-3 rounds) and send them again.",
       "Held on the executions of the run. MaxMessageBytes is kept below MaxRequestSize (the other order is a misconfiguration outside the statement).",
       "DESIGN.md §7 C16")
 
 claim("C20", "exploration", "mocks",
       "runtime monitor of the mock producers/consumer: recording ErrorReporter, reference model of the expectation script (sequential walk; porcupine linearizability check for concurrent senders), reference partitioners, consumer yield-order/offset/high-water-mark oracles, race detector",
-      "Enumerated core of minimal scripts plus seeded scripts of 0-200 expectations (success/error/checker pass|fail) x submitted count relative to the script x partitioners x topic configs x 1-4 senders x SendMessages batches; consumer mock with 1-4 partitions, several close orders and 2-8 goroutines yielding on one partition consumer; async mock with Return.Successes or Return.Errors off. Reporter calls must be exactly the deviations of the case.",
-      "Held on the executions of the run. Not demanded: an outcome for a message without expectation; behaviour on a failing partitioner; messages of a SendMessages batch after its first failing expectation.",
+      "Enumerated core of minimal scripts plus seeded scripts of 0-200 expectations (success/error/checker pass|fail) x submitted count relative to the script x partitioners x topic configs x 1-4 senders x SendMessages batches; a message whose key cannot be encoded or that has no value in the middle of a script; consumer mock with 1-4 partitions, several close orders and 2-8 goroutines yielding on one partition consumer; async mock with Return.Successes or Return.Errors off. Reporter calls must be exactly the deviations of the case.",
+      "Held on the executions of the run. Not demanded: an outcome for a message without expectation; messages of a SendMessages batch after its first failing expectation.",
       "DESIGN.md §7 C20")
 
 claim("C03", "exploration", "cons",
@@ -62,7 +62,7 @@ claim("C03", "exploration", "cons",
       "DESIGN.md §7 C03")
 claim("C11", "exploration", "cons",
       "runtime monitor: transactional logs with a faithful aborted-transaction index and last stable offset served by the simulated cluster; reference view of committed / non-transactional records; fetch offsets observed to move past control and aborted records",
-      "Enumerated core (6 transaction patterns incl. 3-4 staggered aborted transactions in one answer x every start offset x batch size x isolation level) plus seeded logs with 1-4 producer ids (from 0, 9000 or 2^40), overlapping / back-to-back / aborted-then-committed / open transactions, shuffled aborted index, C03's faults and paces.",
+      "Enumerated core (6 transaction patterns incl. 3-4 staggered aborted transactions in one answer x every start offset x batch size x isolation level) plus seeded logs with 1-4 producer ids (from 0, 9000 or 2^40), overlapping / back-to-back / aborted-then-committed / open transactions, shuffled aborted index, aborted lists that reach behind the last record served, C03's faults and paces.",
       "Held on the executions of the run; versions >= 0.11.",
       "DESIGN.md §7 C11")
 claim("C18", "fault_enumeration", "prod",
@@ -91,7 +91,7 @@ claim("C06", "exploration", "om",
 
 claim("C07", "fault_enumeration", "group",
       "runtime monitor of real ConsumerGroup members (each with its own client) against a simulated group coordinator implementing Kafka's group state machine: trace automaton per Consume call over a recording handler (Setup / ConsumeClaim / Cleanup), coordinator-side event log for identities, start offsets, final commits and assignments, delivery coverage across sessions, quiescence-judged termination, race detector",
-      "Enumerated core: every single fault (and fault after one ok; pairs in thorough) x request kind (find-coordinator, join, sync, heartbeat, commit, leave, offset-fetch; join faults also on the 2nd-4th join) x two handler behaviours on a one-member scenario; plus seeded scenarios with 1-3 members, 1-2 topics, 3 strategies, 7 handler behaviours (incl. marking inside Cleanup), late joiners, Close mid-session, context cancellation, pre-stored commits (inside, below and beyond the log), Consumer.Offsets.Retention, claims that cannot be started (ListOffsets failing per partition), a partition that is leaderless while the group leader plans, members without claims. Injected UNKNOWN_MEMBER_ID answers are made true at the coordinator (the member is removed); UNKNOWN_MEMBER_ID anywhere and ILLEGAL_GENERATION on a join or sync count as fencing for the fresh-identity clause.",
+      "Enumerated core: every single fault (and fault after one ok; pairs in thorough) x request kind (find-coordinator, join, sync, heartbeat, commit, leave, offset-fetch; join faults also on the 2nd-4th join) x two handler behaviours on a one-member scenario; plus seeded scenarios with 1-3 members, 1-2 topics, 3 strategies, 7 handler behaviours (incl. marking inside Cleanup), late joiners, Close mid-session, context cancellation, pre-stored commits (inside, below and beyond the log), Consumer.Offsets.Retention, claims that cannot be started (ListOffsets failing per partition), a partition that is leaderless while the group leader plans, a topic that gains a partition between two Consume calls, members without claims. Injected UNKNOWN_MEMBER_ID answers are made true at the coordinator (the member is removed); UNKNOWN_MEMBER_ID anywhere and ILLEGAL_GENERATION on a join or sync count as fencing for the fresh-identity clause.",
       "Held on the executions of the run. The final-commit clause is only judged when the member's commit path was not disturbed by injected faults; 'exactly one claim unless the session is ending' is judged as at-most-one, plus: an assigned partition without ConsumeClaim in a session that goes on for 12+ successful heartbeats after its last claim started is a violation.",
       "DESIGN.md §7 C07")
 
